@@ -291,6 +291,102 @@ Proof.
   rewrite flatN_nat. reflexivity.
 Qed.
 
+(* ---------------------------------------------------------------- Array::get_axis *)
+Lemma axis_stride_lt sh : forall a i,
+  Forall (fun v => 0 < v) sh -> (a < length sh)%nat -> i < nth a sh 0 ->
+  i * nth a (stridesN sh) 0 < prodN sh.
+Proof.
+  induction sh as [|n t IH]; intros a i F Ha Hi; cbn [length] in Ha; [inversion Ha|].
+  inversion F as [|? ? Hn Ft]; subst.
+  pose proof (prodN_pos t Ft) as Pt.
+  destruct a as [|a]; cbn [nth stridesN prodN] in *.
+  - apply N.mul_lt_mono_pos_r; assumption.
+  - apply Nat.succ_lt_mono in Ha.
+    eapply N.lt_le_trans; [apply (IH a i Ft Ha Hi) | apply mul_le_l; exact Hn].
+Qed.
+
+Lemma nth_map_of_nat (l : list nat) a : nth a (map N.of_nat l) 0 = N.of_nat (nth a l 0%nat).
+Proof. exact (map_nth N.of_nat l 0%nat a). Qed.
+
+(* on a non-empty accepted array the start of the view is index * stride, inside the data, as in ArrayM.get_axis *)
+Theorem axis_offset_w_exact len sh a i :
+  array_new_w len sh = true -> Forall (fun v => 0 < v) sh -> (a < length sh)%nat -> i < nth a sh 0 ->
+  axis_offset_w len sh a i = Some (i * nth a (stridesN sh) 0) /\ i * nth a (stridesN sh) 0 < len.
+Proof.
+  intros H F Ha Hi.
+  pose proof (axis_stride_lt sh a i F Ha Hi) as Lt.
+  apply array_new_w_sound in H. destruct H as [Hp Hl].
+  split; [|lia].
+  unfold axis_offset_w.
+  apply Nat.ltb_lt in Ha. apply N.ltb_lt in Hi. rewrite Ha, Hi. cbn [andb].
+  rewrite (strides_w_exact sh F) by lia.
+  rewrite checked_mul_some by lia.
+  f_equal. apply N.min_l. lia.
+Qed.
+
+(* on an empty array every view that exists is empty: it starts at the end of the (empty) data, whatever the strides *)
+Theorem axis_offset_w_empty sh a i :
+  array_new_w 0 sh = true -> (a < length sh)%nat -> i < nth a sh 0 -> axis_offset_w 0 sh a i = Some 0.
+Proof.
+  intros _ Ha Hi. unfold axis_offset_w.
+  apply Nat.ltb_lt in Ha. apply N.ltb_lt in Hi. rewrite Ha, Hi. cbn [andb].
+  destruct (checked_mul i (nth a (strides_w sh) 0)) as [o|]; [|reflexivity].
+  f_equal. apply N.min_r. apply N.le_0_l.
+Qed.
+
+(* a view exists exactly for an axis of the array and a position on it - no other outcome, in particular no overflow *)
+Theorem axis_offset_w_some_iff len sh a i :
+  (exists o, axis_offset_w len sh a i = Some o /\ o <= len) <-> ((a < length sh)%nat /\ i < nth a sh 0).
+Proof.
+  unfold axis_offset_w. split.
+  - intros [o [E _]].
+    destruct (Nat.ltb a (length sh)) eqn:Ha; cbn [andb] in E; [|discriminate].
+    destruct (i <? nth a sh 0) eqn:Hi; [|discriminate].
+    apply Nat.ltb_lt in Ha. apply N.ltb_lt in Hi. split; assumption.
+  - intros [Ha Hi].
+    apply Nat.ltb_lt in Ha. apply N.ltb_lt in Hi. rewrite Ha, Hi. cbn [andb].
+    destruct (checked_mul i (nth a (strides_w sh) 0)) as [o|].
+    + exists (N.min o len). split; [reflexivity | apply N.le_min_r].
+    + exists len. split; [reflexivity | apply N.le_refl].
+Qed.
+
+(* before the repair, the same request on an accepted (empty) array overflowed: F27, kept on record *)
+Theorem axis_offset_unrepaired_overflow_refuted :
+  array_new_w 0 [0; 3; wmax] = true /\ axis_offset_unrepaired_w [0; 3; wmax] 1 2 = WOverflow /\
+  axis_offset_w 0 [0; 3; wmax] 1 2 = Some 0.
+Proof.
+  vm_compute; repeat split; reflexivity.
+Qed.
+
+(* the unrepaired computation was right on every non-empty accepted array (which is why it went unnoticed) *)
+Theorem axis_offset_unrepaired_positive len sh a i :
+  array_new_w len sh = true -> Forall (fun v => 0 < v) sh -> (a < length sh)%nat -> i < nth a sh 0 ->
+  axis_offset_unrepaired_w sh a i = WSome (i * nth a (stridesN sh) 0).
+Proof.
+  intros H F Ha Hi.
+  pose proof (axis_stride_lt sh a i F Ha Hi) as Lt.
+  apply array_new_w_sound in H. destruct H as [Hp Hl].
+  unfold axis_offset_unrepaired_w.
+  apply Nat.ltb_lt in Ha. apply N.ltb_lt in Hi. rewrite Ha, Hi. cbn [andb].
+  rewrite (strides_w_exact sh F) by lia.
+  rewrite checked_mul_some by lia. reflexivity.
+Qed.
+
+(* bridge: the start of the view in ArrayM.get_axis (skipn (i * nth a (strides sh) 0)) *)
+Theorem axis_offset_w_refines len (sh : list nat) a i :
+  array_new_w len (map N.of_nat sh) = true -> Forall (fun v => (0 < v)%nat) sh -> (a < length sh)%nat -> (i < nth a sh 0%nat)%nat ->
+  axis_offset_w len (map N.of_nat sh) a (N.of_nat i) = Some (N.of_nat (i * nth a (strides sh) 0%nat)).
+Proof.
+  intros H F Ha Hi.
+  assert (FN : Forall (fun v => 0 < v) (map N.of_nat sh)).
+  { apply Forall_forall. intros x Hx. apply in_map_iff in Hx. destruct Hx as [y [<- Hy]].
+    rewrite Forall_forall in F. specialize (F y Hy). lia. }
+  assert (HaN : (a < length (map N.of_nat sh))%nat) by (rewrite map_length; exact Ha).
+  assert (HiN : N.of_nat i < nth a (map N.of_nat sh) 0) by (rewrite nth_map_of_nat; lia).
+  destruct (axis_offset_w_exact len _ a (N.of_nat i) H FN HaN HiN) as [E _].
+  rewrite E. rewrite stridesN_nat, nth_map_of_nat, Nat2N.inj_mul. reflexivity.
+Qed.
+
 (* non-vacuity *)
 Example word_examples :
   array_new_w 24 [2; 3; 4] = true /\ strides_w [2; 3; 4] = [12; 4; 1] /\
